@@ -16,12 +16,19 @@ RULE = ('sector/arc correspondence: Sector::points/contains, Arc::points (row bi
         'rotating through -360..360, d in {23,24}; thorough: ALL 360x721 pairs for d in {23,24} and every d in 0..24 for a 1/9 '
         'sample), random hundredths of degrees and random f32 bit patterns in +-1080 deg, sweeps clustered at 0, +-55, +-180, '
         '+-305, +-360 deg; diameters 0..60 (masks, contains windows) and 61..128 (point lists, styled); stroke widths 0..12 all alignments, fill/stroke colours present or not; positions '
-        '+-70 and +-2^20. Normals fed to the model come from the hook of the real code. search (implementation only): trig '
+        '+-70 and +-2^20. Normals fed to the model come from the hook of the real code. fixed_point build: fx_parts = PlaneSector::new on I16F16 angle bit patterns against the exact integer model Trigfixed (the object of the C18_trigfixed theorems). search (implementation only): trig '
         'hypothesis |n - 1024 u| <= 3 and Union/Intersection/EntirePlane choice against f64 at every whole degree, all '
         'whole-degree pairs, 1e5 (quick) / 2e7 (thorough) random f32 (start, sweep) pairs, quick: every 256th f32 bit pattern in +-1440 deg (residue class rotating with VERIF_SEED, 9e6 angles per build), thorough: EVERY f32 bit pattern in +-1440 deg; measured worst eps is part of every result line (2.12 f32 / 9.85 fixed_point); the same on a second harness binary built with --features fixed_point (eps 10, plus a model correspondence batch with the normals of that build); |sweep| >= 360 deg -> EntirePlane and '
         'sector = circle, arc = ring; every sector/arc point within 1.5 px of the swept angle and every deeper circle point '
         'present, d up to 128.')
 PARTIAL = [
+    'fixed_point build: the trig hypothesis is a THEOREM (Properties/C18_trigfixed.v: C18_trigfixed_hypothesis, eps = 10, for Angle '
+    'values within +-1_900_000 I16F16 bits = +-1661 deg, start and end) about the exact integer model coq/Model/Trigfixed.v; '
+    'rays_proper is proved (C18_trigfixed_rays_proper) for sweeps of 2.0003..176.9997, 183.0003..357.9997 and >= 360 deg, so '
+    'C18_trigfixed_sector_near_cone_closed / covers_cone_closed carry NO trig assumption; outside those sweep bands rays_proper '
+    'stays validated (trig_check). The theorems speak about the Angle value stored in the Angle (I16F16 bits / 65536 rad): the '
+    'f32 -> I16F16 conversion of Angle::from_degrees (f32 multiply, divide, from_num; < 2^-16 rad) is not modelled. '
+    'f32 (default) build: hypothesis validated only, as below',
     'trig hypothesis: `trig_hypothesis ps start sweep eps` and `rays_proper ps` (coq/Proofs/Sectorangle.v; Coq sin/cos) are ASSUMED '
     'of the external call PlaneSector::new and validated by trig_check (p_trig_*) through the hook, not proved; every angular '
     'theorem (C18_sector_near_cone / covers_cone / within_sweep / covers_sweep, arc analogues) is conditional on it; the link '
@@ -40,7 +47,13 @@ PARTIAL = [
     'diameters <= 128 as in the property; angles: the hypothesis is validated for start in +-1080 deg and end angles in '
     '+-1440 deg (every f32 in thorough, every 256th in quick), from_degrees only',
 ]
-TRUSTED = ['Coq standard-library axioms: Reals (ClassicalDedekindReals.sig_forall_dec, sig_not_dec), Classical_Prop.classic (via sqrt/acos in the polar form of the sector), '
+TRUSTED = ['fixed_point theorem chain: the model of the `fixed` crate 1.31 operations in coq/Model/Trigfixed.v (mul = floor, div = toward zero, '
+           'round = ties away from zero, i32::from = toward zero; read from fixed-1.31.0/src/arith.rs, macros_round.rs) is tied to the code '
+           'only by the fx_parts correspondence on the fixed_point binary (whole/half degrees +-1440 deg with neighbours, rounding '
+           'boundaries, thresholds, random bit patterns; 27k quick / 380k thorough); table and constants regenerated by '
+           'translate/gen_sin.py (fails closed on any change of the sin/cos/with_angle/PlaneSector::new source shape); numeric bounds '
+           'by the Coq Interval library; Coq primitive 63-bit integers: PrimInt63 primitives and Uint63 specification axioms (standard library), used by Interval bigint floats with i_prec 64; no PrimFloat axioms',
+           'Coq standard-library axioms: Reals (ClassicalDedekindReals.sig_forall_dec, sig_not_dec), Classical_Prop.classic (via sqrt/acos in the polar form of the sector), '
            'FunctionalExtensionality.functional_extensionality_dep) in the C18_sector_* / C18_arc_* theorems over R',
            'external call, validated not proved: sin/cos of micromath (f32) or the I16F16 table behind PlaneSector::new; observed '
            'through the add-only hook embedded_graphics::primitives::verif_hooks::plane_sector_parts; trig_check '
